@@ -59,6 +59,8 @@ func main() {
 		os.Exit(cmdRun(os.Args[2:]))
 	case "replay":
 		os.Exit(cmdReplay(os.Args[2:]))
+	case "selftest":
+		os.Exit(cmdSelftest(os.Args[2:]))
 	default:
 		usage()
 	}
@@ -338,9 +340,26 @@ func cmdRun(args []string) int {
 	} else if status == 2 {
 		st = "inconclusive"
 	}
+	validated := 0
+	if h.Native && status != 1 && *only == "" {
+		per := 2
+		if cfg.Thorough {
+			per = 5
+		}
+		agree, total := selftest(id, per, false)
+		validated = agree
+		fmt.Printf("translator validation: %d/%d sampled models give the same observable values in the interpreter and in the natively compiled harness\n", agree, total)
+		if agree != total && cfg.Thorough && status == 0 {
+			fmt.Println("INCONCLUSIVE: interpreter and native build disagree on a sampled model (run `bin/vchk selftest " + id + "`)")
+			status, st = 2, "inconclusive"
+		}
+	}
+	tracesValidated = validated
 	writeEvidence(id, *tier, seed, results, h, cfg, time.Since(start), nviol, st, *noEvidence)
 	return status
 }
+
+var tracesValidated int
 
 func reachFor(h *Harness, e *EntrySpec) []string {
 	if v, ok := e.Opts["reach"]; ok {
@@ -524,7 +543,7 @@ func writeEvidence(id, tier string, seed int, results []*EntryResult, h *Harness
 		"coverage": map[string]any{
 			"states":                        states,
 			"transitions":                   trans,
-			"traces_validated_against_impl": 0,
+			"traces_validated_against_impl": tracesValidated,
 			"samples":                       samples,
 			"status":                        status,
 			"technique":                     "bounded symbolic execution of go/ssa from /repo's working tree; every path condition and assertion decided by z3 (QF_BV); states = feasible paths, transitions = symbolic branch decisions",
@@ -547,4 +566,95 @@ func writeEvidence(id, tier string, seed int, results []*EntryResult, h *Harness
 	dir := filepath.Join(verifDir(), "evidence")
 	os.MkdirAll(dir, 0o755)
 	writeJSON(filepath.Join(dir, id+".json"), ev)
+}
+
+// cmdSelftest validates the translator: sample models of completed paths are
+// run (a) concretely through the interpreter and (b) natively (go test with
+// the same stubs); the observable values recorded with vx.Note and the set of
+// violated assertions must agree.
+func cmdSelftest(args []string) int {
+	if len(args) < 1 {
+		usage()
+	}
+	id := args[0]
+	n := 8
+	if len(args) > 1 {
+		n, _ = strconv.Atoi(args[1])
+	}
+	agree, total := selftest(id, n, true)
+	fmt.Printf("selftest %s: %d/%d sampled models agree between the interpreter and the native build\n", id, agree, total)
+	if agree != total {
+		return 2
+	}
+	return 0
+}
+
+func selftest(id string, perEntry int, verbose bool) (agree, total int) {
+	h, err := parseHarness(id, filepath.Join(verifDir(), "harness", id))
+	if err != nil || !h.Native {
+		return 0, 0
+	}
+	cfg := &Config{MaxSteps: 200_000_000, Unwind: 256, knownIDs: map[string]bool{}, skipInitPkgs: map[string]bool{}}
+	if err := loadProgram(h, cfg); err != nil {
+		fmt.Println("selftest: cannot load:", err)
+		return 0, 0
+	}
+	dir := filepath.Join(verifDir(), ".work")
+	os.MkdirAll(dir, 0o755)
+	for _, e := range h.Entries {
+		if e.Tiers == "thorough" {
+			continue
+		}
+		ex := newExplorer(cfg, e.Fn)
+		ex.workers = 4
+		ex.solverK = "z3"
+		ex.timeout = 3000
+		ex.fbTimeout = 30
+		ex.maxPaths = 400
+		ex.collect = perEntry
+		ex.stride = 400 / (perEntry + 1)
+		ex.deadline = time.Now().Add(2 * time.Minute)
+		ex.Run()
+		for i, m := range ex.models {
+			total++
+			// (a) interpreter, concrete
+			cx := newExplorer(cfg, e.Fn)
+			cx.maxViol = 1
+			cx.runPath(nil, WorkItem{model: m})
+			engNotes := strings.Join(cx.lastNotes, "|")
+			engViol := len(cx.violations) > 0
+			// (b) native
+			mf := filepath.Join(dir, fmt.Sprintf("selftest-%s-%s-%d.json", id, e.Name, i))
+			writeJSON(mf, map[string]any{"entry": e.Name, "model": m})
+			natViol, out, nerr := nativeReplay(h, cfg, e, mf, false)
+			os.Remove(mf)
+			if nerr != nil {
+				if verbose {
+					fmt.Printf("  %s #%d: native run failed: %v\n%s\n", e.Name, i, nerr, lastLines(out, 15))
+				}
+				continue
+			}
+			var nn []string
+			for _, l := range strings.Split(out, "\n") {
+				if k := strings.Index(l, "VXNOTE: "); k >= 0 {
+					nn = append(nn, l[k+len("VXNOTE: "):])
+				}
+			}
+			natNotes := strings.Join(nn, "|")
+			if natNotes == engNotes && natViol == engViol {
+				agree++
+			} else if verbose {
+				fmt.Printf("  %s #%d DISAGREE: interpreter notes=[%s] viol=%v ; native notes=[%s] viol=%v\n", e.Name, i, engNotes, engViol, natNotes, natViol)
+			}
+		}
+	}
+	return agree, total
+}
+
+func lastLines(s string, n int) string {
+	l := strings.Split(s, "\n")
+	if len(l) > n {
+		l = l[len(l)-n:]
+	}
+	return strings.Join(l, "\n")
 }
